@@ -41,6 +41,19 @@ pub struct CorridorSpec {
     /// lock out each other
     #[serde(default)]
     pub lockout_crossing: bool,
+    /// a third track that leaves the main line at the east end of single-track stage `from`
+    /// and rejoins it at the west end of single-track stage `to`, passing the stages in
+    /// between (which hold at least one siding): stages `from`, `from + 1`, `to - 1`, `to` are
+    /// single track, so no switch points coincide
+    #[serde(default)]
+    pub bypass: Option<BypassSpec>,
+}
+
+#[derive(Serialize, Deserialize, Clone, Debug, PartialEq)]
+pub struct BypassSpec {
+    pub from: usize,
+    pub to: usize,
+    pub seg: SegSpec,
 }
 
 #[derive(Serialize, Deserialize, Clone, Debug, PartialEq)]
@@ -60,6 +73,8 @@ pub struct Corridor {
     pub n_main: usize,
     /// segment spec per link index (both directions)
     pub seg_of_link: Vec<Option<SegSpec>>,
+    /// forward and reverse link of the bypass track
+    pub bypass_links: Option<(u32, u32)>,
 }
 
 fn link_geom(seg: &SegSpec, e0: f64, rise: f64, reverse: bool) -> (Vec<Elev>, Vec<Heading>, SpeedSet) {
@@ -111,6 +126,10 @@ impl CorridorSpec {
                 v.push(k);
             }
             fwd.push(v);
+        }
+        let bypass = self.bypass.as_ref().filter(|b| b.from + 1 < b.to && b.to < n);
+        if bypass.is_some() {
+            k += 1;
         }
         let p = k;
         let rev: Vec<Vec<u32>> = fwd.iter().map(|v| v.iter().map(|i| i + p).collect()).collect();
@@ -187,6 +206,36 @@ impl CorridorSpec {
                 links[ar as usize].idx_prev_alt = li(br);
             }
         }
+        // bypass track: east end of stage `from` -> west end of stage `to`
+        let mut bypass_links = None;
+        if let Some(b) = bypass {
+            let (bf, br) = (p, 2 * p);
+            let e_from: f64 = 100.0 + self.stages[..=b.from].iter().map(|s| s.rise).sum::<f64>();
+            let rise: f64 = self.stages[b.from + 1..b.to].iter().map(|s| s.rise).sum();
+            for reverse in [false, true] {
+                let idx = if reverse { br } else { bf };
+                let (elevs, headings, speed_set) = link_geom(&b.seg, e_from, rise, reverse);
+                let l = &mut links[idx as usize];
+                l.idx_curr = li(idx);
+                l.idx_flip = li(if reverse { bf } else { br });
+                l.length = uc::M * b.seg.length;
+                l.elevs = elevs;
+                l.headings = headings;
+                l.speed_set = Some(speed_set);
+                seg_of_link[idx as usize] = Some(b.seg.clone());
+            }
+            let (a, ar) = (fwd[b.from][0], rev[b.from][0]);
+            let (t, tr) = (fwd[b.to][0], rev[b.to][0]);
+            links[a as usize].idx_next_alt = li(bf);
+            links[bf as usize].idx_prev = li(a);
+            links[bf as usize].idx_next = li(t);
+            links[t as usize].idx_prev_alt = li(bf);
+            links[tr as usize].idx_next_alt = li(br);
+            links[br as usize].idx_prev = li(tr);
+            links[br as usize].idx_next = li(ar);
+            links[ar as usize].idx_prev_alt = li(br);
+            bypass_links = Some((bf, br));
+        }
         if let Some(k) = self.lockout_stage {
             if k < n && fwd[k].len() == 2 {
                 let (m, s) = (fwd[k][0], fwd[k][1]);
@@ -208,7 +257,7 @@ impl CorridorSpec {
                 }
             }
         }
-        Corridor { links, fwd, rev, n_phys: p as usize, n_main: n, seg_of_link }
+        Corridor { links, fwd, rev, n_phys: p as usize, n_main: n, seg_of_link, bypass_links }
     }
 }
 
@@ -228,11 +277,13 @@ pub struct CorridorOpts {
     /// an eastbound train then ends its run straddling three or more segments; westbound trains
     /// of the main line need an intermediate origin there
     pub p_short_east: f64,
+    /// probability of a bypass track around an interior siding (see `CorridorSpec::bypass`)
+    pub p_bypass: f64,
 }
 
 impl Default for CorridorOpts {
     fn default() -> Self {
-        Self { max_stages: 7, min_seg: 1500.0, max_seg: 20000.0, min_terminal: 2500.0, p_yard: 0.7, p_lockout: 0.0, p_branch: 0.0, p_short_ends: 0.0, p_short_east: 0.0 }
+        Self { max_stages: 7, min_seg: 1500.0, max_seg: 20000.0, min_terminal: 2500.0, p_yard: 0.7, p_lockout: 0.0, p_branch: 0.0, p_short_ends: 0.0, p_short_east: 0.0, p_bypass: 0.0 }
     }
 }
 
@@ -284,10 +335,40 @@ pub fn gen_corridor(g: &mut Gen, o: &CorridorOpts) -> CorridorSpec {
             st.rise = (st.rise * 10.0).round() / 10.0;
         }
     }
+    // bypass track around an interior siding k: short single-track stages are inserted on both
+    // sides of the siding where needed, so that the stages at both ends of the bypass and their
+    // inner neighbours are single track
+    let mut bypass = None;
+    if o.p_bypass > 0.0 && g.bool(o.p_bypass) {
+        let inner: Vec<usize> = (1..stages.len().saturating_sub(1)).filter(|i| stages[*i].side.is_some()).collect();
+        if !inner.is_empty() {
+            let mut k = inner[g.idx(inner.len())];
+            let switch_stage = |g: &mut Gen| {
+                let length = (g.f64(300.0, 2500.0) / 100.0).round() * 100.0;
+                StageSpec { main: SegSpec { length, speed: g.grid(10.0, 25.0, 6), bump: None }, side: None, rise: 0.0 }
+            };
+            // west side: stages k-2, k-1 single
+            if k < 2 || stages[k - 2].side.is_some() {
+                let st = switch_stage(g);
+                stages.insert(k, st);
+                k += 1;
+            }
+            // east side: stages k+1, k+2 single
+            if k + 2 >= stages.len() || stages[k + 2].side.is_some() {
+                let st = switch_stage(g);
+                stages.insert(k + 1, st);
+            }
+            let (from, to) = (k - 2, k + 2);
+            let between: f64 = stages[from + 1..to].iter().map(|s| s.main.length).sum();
+            let length = ((between * g.grid(1.0, 1.3, 6)) / 100.0).round() * 100.0;
+            bypass = Some(BypassSpec { from, to, seg: SegSpec { length, speed: g.grid(7.5, 25.0, 7), bump: None } });
+        }
+    }
+    let by_conflict = |i: usize| bypass.as_ref().map(|b| i + 1 == b.from || i == b.from || i + 1 == b.to || i == b.to).unwrap_or(false);
     let sidings: Vec<usize> = stages.iter().enumerate().filter(|(_, s)| s.side.is_some()).map(|(i, _)| i).collect();
     let lockout_stage = if !sidings.is_empty() && g.bool(o.p_lockout) { Some(sidings[g.idx(sidings.len())]) } else { None };
     // Y-junction between two consecutive single-track stages (no coincident switch points)
-    let spots: Vec<usize> = (0..stages.len().saturating_sub(1)).filter(|i| stages[*i].side.is_none() && stages[*i + 1].side.is_none()).collect();
+    let spots: Vec<usize> = (0..stages.len().saturating_sub(1)).filter(|i| stages[*i].side.is_none() && stages[*i + 1].side.is_none() && !by_conflict(*i)).collect();
     let branch = if o.p_branch > 0.0 && !spots.is_empty() && g.bool(o.p_branch) {
         let at = spots[g.idx(spots.len())];
         let nb = g.usize(1, 2);
@@ -316,5 +397,5 @@ pub fn gen_corridor(g: &mut Gen, o: &CorridorOpts) -> CorridorSpec {
         (Some(k), Some(b)) if b.at < k => g.bool(0.85),
         _ => false,
     };
-    CorridorSpec { stages, lockout_stage, branch, lockout_crossing }
+    CorridorSpec { stages, lockout_stage, branch, lockout_crossing, bypass }
 }
